@@ -175,6 +175,15 @@ func (f *FuncCtx) typeInv(t string, typ types.Type, depth int) []string {
 		}
 	case *types.Slice:
 		out = append(out, fmt.Sprintf("(>= (s_len %s) 0)", t), fmt.Sprintf("(=> (s_nil %s) (= (s_len %s) 0))", t, t))
+		if _, basic := u.Elem().Underlying().(*types.Basic); !basic {
+			// elements of a slice are values of the element type (only structured elements: scalar ranges would
+			// put a quantifier on every byte slice)
+			iv := fmt.Sprintf("i!e%d", depth)
+			el := fmt.Sprintf("(select (s_arr %s) %s)", t, iv)
+			if einv := f.typeInv(el, u.Elem(), depth+1); len(einv) > 0 {
+				out = append(out, fmt.Sprintf("(forall ((%s Int)) (! (=> (and (<= 0 %s) (< %s (s_len %s))) (and %s)) :pattern (%s)))", iv, iv, iv, t, strings.Join(einv, " "), el))
+			}
+		}
 	case *types.Map:
 		out = append(out, fmt.Sprintf("(>= (m_card %s) 0)", t))
 		k := f.S.SortOf(u.Key())
